@@ -295,6 +295,132 @@ def job_two_recordings(first_digitize):
     return recs
 
 
+class FailingAntenna(C02.FakeAntenna):
+    """raises on the fail_at-th request (a user signal function failing part-way through a recording)"""
+    fail_at = None
+
+    def get_samples(self, n):
+        if self.fail_at is not None and len(self.reqs) == self.fail_at:
+            self.fail_at = None
+            raise RuntimeError('signal source failed')
+        return super().get_samples(n)
+
+
+def job_retry_after_abort(fail_at, bpf, n_in):
+    """a recording onto existing RAW that is aborted by an exception after some input blocks were read, then made
+    again on the same backend: every output block is still built from the input block at the same position"""
+    recs = []
+    tag = f"C14:retry-after-abort:{(fail_at, bpf, n_in)}"
+    P, taps, Wb, npol, nant, bits, nc = 4, 2, 2, 1, 1, 8, 2
+    fs = MemFS()
+    block_size, inbytes, pre = make_input(fs, '/mem/in', P, taps, Wb, npol, nant, bits, nc, n_in, bpf, None)
+    glob_stub = type('G', (), {'glob': staticmethod(lambda pat: fs.glob(pat))})
+    pl = dict(fn='retry', fail_at=fail_at, bpf=bpf, n_in=n_in)
+
+    def mk(fail):
+        ant = FailingAntenna(npol)
+        ant.fail_at = fail
+        fb = PF.PolyphaseFilterbank(num_taps=taps, num_branches=P)
+        be = B.RawVoltageBackend.from_data('/mem/in', ant, digitizer=C02.UQ(), filterbank=fb, start_chan=0, num_subblocks=2)
+        for p in range(npol):
+            be.digitizer[0][p].ident = (0, p)
+            be.requantizer[0][p].ident = (0, p)
+            be.filterbank[0][p].window = npx.sarr([Sym(z3.Real(f'w_{m}')) for m in range(taps * P)])
+            be.filterbank[0][p].channelized_stds = npx.sarr([Sym(RV(1)), Sym(RV(1))])
+        return be, ant
+    kw = dict(length_mode='num_blocks', header_dict={}, digitize=True, verbose=False, load_template=False)
+    state = {}
+
+    def run():
+        beA, antA = mk(fail_at)
+        try:
+            beA.record('/mem/a1', num_blocks=n_in, **kw)
+            state['aborted'] = False
+        except RuntimeError:
+            state['aborted'] = True
+        antA.k = 0
+        beA.record('/mem/a2', num_blocks=2, **kw)
+        beB, antB = mk(None)
+        beB.record('/mem/b2', num_blocks=2, **kw)
+    with volt_patches(opener=fs.open, globber=glob_stub, extra=[(Q, dict(ComplexQuantizer=StubCQ))]):
+        leaf = core.run_single(run, pre)
+    if leaf.kind == 'exc':
+        recs.append(q(tag, 'sat', detail=repr(leaf.value)))
+        recs.append(cex('C14:retry:raise', f'recording again after an aborted recording raised {leaf.value!r}', pl, name=tag))
+        return recs
+
+    def terms(stem):
+        out = []
+        for nm in fs.names():
+            if nm.startswith(stem + '.'):
+                for w in fs.files[nm]:
+                    if isinstance(w, npx.SymBytes):
+                        out.append(list(w.items))
+        return out
+    a, b = terms('/mem/a2'), terms('/mem/b2')
+    dis = []
+    ok = len(a) == len(b) == 2 and all(len(x) == len(y) for x, y in zip(a, b))
+    if ok:
+        for x, y in zip(a, b):
+            for u, v in zip(x, y):
+                d = z3.simplify(lift(u) - lift(v))
+                if not (z3.is_rational_value(d) and d.numerator_as_long() == 0):
+                    dis.append(d != 0)
+    r, m = core.check(pre + leaf.side + ([z3.Or(*dis)] if dis else [z3.BoolVal(False)]) if ok else [z3.BoolVal(True)], timeout_ms=120000)
+    recs.append(q(tag, r, aborted=state.get('aborted'), by_solver=len(dis)))
+    if r == 'sat':
+        recs.append(cex('C14:retry:blocks', 'after an aborted recording, the next recording on the same backend is not built from the input blocks at the same positions', pl, name=tag))
+    recs.append(q(tag + ':abort-reached', 'sat' if state.get('aborted') else 'unsat', expect='sat'))
+    return recs
+
+
+def replay_retry(p):
+    import os
+    import shutil
+    import tempfile
+    from setigen.voltage import backend as bk, polyphase_filterbank as pf, quantization as qz, antenna as an
+    d = tempfile.mkdtemp(prefix='c14r_', dir='/var/tmp')
+    try:
+        src0 = an.Antenna(sample_rate=1024.0, num_pols=2, seed=1)
+        [st.add_noise(0, 1) for st in src0.streams]
+        be0 = bk.RawVoltageBackend(src0, qz.RealQuantizer(), pf.PolyphaseFilterbank(num_taps=2, num_branches=4), qz.ComplexQuantizer(), start_chan=0, num_chans=2, block_size=2 * 2 * 4 * 16, blocks_per_file=p['bpf'], num_subblocks=1)
+        be0.record(os.path.join(d, 'in'), num_blocks=p['n_in'], length_mode='num_blocks', header_dict={}, verbose=False, load_template=False)
+        calls = {'n': 0}
+
+        def mk(fail):
+            src = an.Antenna(sample_rate=1024.0, num_pols=2, seed=2)
+
+            def sig(ts):
+                calls['n'] += 1
+                if fail and calls['n'] == 2 * p['fail_at'] + 1:
+                    raise RuntimeError('signal source failed')
+                return np.zeros(len(ts))
+            [st.add_signal(sig) for st in src.streams]
+            fb = pf.PolyphaseFilterbank(num_taps=2, num_branches=4)
+            fb.channelized_stds = np.array([0.7, 0.9])
+            return bk.RawVoltageBackend.from_data(os.path.join(d, 'in'), src, digitizer=qz.RealQuantizer(target_fwhm=8), filterbank=fb, start_chan=0, num_subblocks=2), src
+        kw = dict(length_mode='num_blocks', header_dict={}, digitize=True, verbose=False, load_template=False)
+        a, sa = mk(True)
+        aborted = False
+        try:
+            a.record(os.path.join(d, 'a1'), num_blocks=p['n_in'], **kw)
+        except RuntimeError:
+            aborted = True
+        sa.set_time(0)
+        try:
+            a.record(os.path.join(d, 'a2'), num_blocks=2, **kw)
+        except Exception as e:
+            return True, f"recording again after the aborted one raised {type(e).__name__}: {e}"
+        b, sb = mk(False)
+        b.record(os.path.join(d, 'b2'), num_blocks=2, **kw)
+        ra = b''.join(open(os.path.join(d, f), 'rb').read() for f in sorted(os.listdir(d)) if f.startswith('a2.'))
+        rb = b''.join(open(os.path.join(d, f), 'rb').read() for f in sorted(os.listdir(d)) if f.startswith('b2.'))
+        nd = sum(1 for x, y in zip(ra, rb) if x != y) + abs(len(ra) - len(rb))
+    finally:
+        shutil.rmtree(d, ignore_errors=True)
+    return nd > 0, f"first recording aborted={aborted}; the recording made afterwards on the same backend differs in {nd} bytes from the same recording on a fresh backend"
+
+
 def nsb_eff(be):
     return be.num_subblocks
 
@@ -523,7 +649,7 @@ def replay_two(p):
     return nd > 0, f"second recording (digitize={not p['first_digitize']}) differs in {nd} bytes from the same recording on a fresh backend"
 
 
-REPLAYS = {'inject': replay_inject, 'two': replay_two}
+REPLAYS = {'inject': replay_inject, 'two': replay_two, 'retry': replay_retry}
 
 
 def main():
@@ -552,6 +678,8 @@ def main():
         jobs.append(('job_final_stats', (4, 2, 2, npol, bits)))
     for fd in (True, False):
         jobs.append(('job_two_recordings', (fd,)))
+    for (fail_at, bpf, n_in) in ((1, 4, 4), (3, 4, 4), (5, 2, 4), (2, 2, 3)):
+        jobs.append(('job_retry_after_abort', (fail_at, bpf, n_in)))
     ck.bounds = dict(base=base, pols='1-2', antennas='1-2', bits='8/4', num_subblocks='1..4 on 3 windows', input='2-3 blocks in files of 1-2, DIRECTIO absent/0/1', requested='shorter, equal, longer than the input')
     ck.run_jobs('props.C14', jobs, timeout_s=1500)
     ck.finish()
